@@ -2381,6 +2381,12 @@ func init() {
 				p.Variant = "membership"
 				return p
 			}
+			if id == "C02" && (seed^(seed>>19))%16 == 2 {
+				// answers to TCP clients (late, reordered, after reconnects): each returns to the hop its request came from
+				p := genAffinityPlan(seed, tier)
+				p.Variant = "affinity"
+				return p
+			}
 			if id == "C07" && (seed^(seed>>19))%16 == 1 {
 				// TCP clients from one address, requests sent again over new connections, answers late and reordered:
 				// every answer travels back to the connection its request really came from (the affinity world of C12)
